@@ -56,6 +56,10 @@ const (
 // RetryPolicy is the default retry policy used for machine calls.
 var retryPolicy = retry.MaxRetries(retry.Backoff(5*time.Second, 60*time.Second, 2), 5)
 
+// RunRetryPolicy is the retry policy for transport failures of Worker.Run
+// calls (the same as bigmachine's RetryCall).
+var runRetryPolicy = retry.Backoff(time.Second, 5*time.Second, 1.5)
+
 // FatalErr is used to match fatal errors.
 var fatalErr = errors.E(errors.Fatal)
 
@@ -429,7 +433,19 @@ compile:
 	b.sess.tracer.Event(m, task, "B")
 	task.Set(TaskRunning)
 	var reply taskRunReply
-	err = m.RetryCall(ctx, "Worker.Run", req, &reply)
+	// Retry failures of the RPC machinery only. A (temporary) error returned
+	// by the task itself is left to the evaluator, which resubmits the task a
+	// bounded number of times; retrying the call here would retry it forever.
+	for retries := 0; ; retries++ {
+		err = m.Call(ctx, "Worker.Run", req, &reply)
+		if err == nil || !errors.IsTemporary(err) || errors.Is(errors.Remote, err) {
+			break
+		}
+		if werr := retry.Wait(ctx, runRetryPolicy, retries); werr != nil {
+			err = errors.E(errors.Fatal, werr)
+			break
+		}
+	}
 	statsCancel()
 	simhook.Yield("bm.returned", func() string { return fmt.Sprintf("%s|%s|%d", task.Name, m.Addr, procs) })
 	m.Done(procs, err)
